@@ -223,6 +223,8 @@ class FieldCodeGenerator:
             expression = self._name
             if self._array_field:
                 expression = f'tuple({expression})'
+                if self._optional:
+                    expression += f' if {self._name} is not None else None'
         elif isinstance(field_type, StringType):
             expression = f'"{self._hardcoded_value}"'
         elif isinstance(field_type, BoolType):
@@ -240,8 +242,11 @@ class FieldCodeGenerator:
         if self._length_string in self._context.length_field_is_referenced_map:
             self._context.length_field_is_referenced_map[self._length_string] = True
             length_field_data = self._context.accessible_fields[self._length_string]
+            length_expression = f'len(self._{self._name})'
+            if self._optional:
+                length_expression += f' if self._{self._name} is not None else None'
             self._data.init_body.add_line(
-                f'self._{length_field_data.name} = len(self._{self._name})'
+                f'self._{length_field_data.name} = {length_expression}'
             )
 
     def generate_serialize(self):
